@@ -171,32 +171,41 @@ def job_case(args: dict) -> dict:
         out["acs_row"] = [[int(v) for v in x[0]] for x in a]
         if conf["gen"] in RC.TWO_D:
             out["acs_bits"] = [[int(v) for v in x.reshape(-1)] for x in a]
-    probes = []
+    pframes = []      # one record per `poisson` invocation (= per frame): accelerations the tolerance test saw, returned count
     if conf["gen"] == "VariableDensityPoisson":
-        from direct.common.subsample import centered_disk_mask
+        import sys
 
-        cfs, accs = conf["center_fractions"], conf["accelerations"]
+        pcode = mf.poisson.__func__.__code__
 
-        def hook(a, k):
-            m = np.array(a[3]) | centered_disk_mask((rows, cols), cfs[0])
-            if conf.get("kwargs", {}).get("crop_corner"):
-                x, y = np.mgrid[:rows, :cols]
-                x = np.maximum(abs(x - rows / 2), 0)
-                x = x / x.max()
-                y = np.maximum(abs(y - cols / 2), 0)
-                y = y / y.max()
-                m = m * (np.sqrt(x ** 2 + y ** 2) < 1)
-            probes.append(int(m.sum()))
+        def tracer(frame, event, arg):
+            if event == "call" and frame.f_code is pcode:
+                rec = {"tested": [], "ret": None, "last": None}
+                pframes.append(rec)
 
-        RC._KERNEL_HOOKS["_poisson"] = hook
+                def local(frame, event, arg):
+                    v = frame.f_locals.get("actual_acceleration")
+                    if v is not None and v is not rec["last"]:
+                        rec["last"] = v
+                        rec["tested"].append(float(v))
+                    if event == "return" and arg is not None:
+                        rec["ret"] = int(np.asarray(arg).sum())      # the mask the caller gets
+                    return local
+
+                return local
+            return None
+
+        sys.settrace(tracer)
     try:
         r = RC.run_call(mf, shape, False, seed, keep_values=True)
     finally:
-        RC._KERNEL_HOOKS.pop("_poisson", None)
+        if conf["gen"] == "VariableDensityPoisson":
+            sys.settrace(None)
+    for rec in pframes:
+        rec.pop("last", None)
     out["err"] = r["err"]
     out["errmsg"] = r.get("errmsg")
     out["log"] = [{k: e.get(k) for k in ("kind", "method", "value", "name", "seed", "ints", "func", "lineno", "req")} for e in r["log"]]
-    out["probe_counts"] = probes
+    out["poisson_frames"] = pframes
     if r["err"] is None:
         m = _frames(r.pop("_array"), conf, shape)
         out["count"] = [int(x.sum()) for x in m]
@@ -319,8 +328,21 @@ def gen_cases(ctx: Ctx) -> list[dict]:
             dyn = mode != "static"
             shape = ([rng.randint(2, 3)] if dyn else []) + [rows, cols, 2]
             seed = rng.randrange(2 ** 31) if rng.random() < 0.6 else [rng.randrange(256) for _ in range(6)]
-            cases.append({"conf": {"gen": gen, "accelerations": [R], "center_fractions": [cf], "mode": mode},
-                          "shape": shape, "seed": seed, "infeasible_by_design": bad})
+            conf = {"gen": gen, "accelerations": [R], "center_fractions": [cf], "mode": mode}
+            if gen == "VariableDensityPoisson":
+                # constructor options that affect the budget
+                kw = {"crop_corner": i % 2 == 1}
+                if rng.random() < 0.4:
+                    kw["tol"] = rng.choice([0.1, 0.3, 0.5])
+                if rng.random() < 0.3:
+                    kw["max_attempts"] = rng.choice([5, 30])
+                if rng.random() < 0.3:
+                    kw["slopes"] = rng.choice([[0, 20], [0.5, 60], [0, 200]])
+                conf["kwargs"] = kw
+            if gen == "KtRadial":
+                conf["mode"] = "dynamic"
+                conf["kwargs"] = {"crop_corner": i % 2 == 1}
+            cases.append({"conf": conf, "shape": shape, "seed": seed, "infeasible_by_design": bad})
 
     q = ctx.budget
     add("FastMRIRandom", q(18, 90), None)
@@ -329,7 +351,8 @@ def gen_cases(ctx: Ctx) -> list[dict]:
     add("CartesianEquispaced", q(18, 90), None, cart=True, infeasible=0.15)
     add("Gaussian1D", q(24, 120), None, infeasible=0.2)
     add("Gaussian2D", q(9, 36), [16, 24, 32, 33, 48, 64], two_d=True, infeasible=0.15)
-    add("VariableDensityPoisson", q(12, 48), [32, 40, 48, 64, 96, 128], two_d=True)
+    add("VariableDensityPoisson", q(16, 60), [32, 40, 48, 51, 64, 65, 96, 128], two_d=True)
+    add("KtRadial", q(4, 12), [32, 48, 64], two_d=True, modes=["dynamic"])      # crop_corner on/off: reported, not judged
     add("FastMRIMagic", q(6, 40), None)
     add("CartesianMagic", q(3, 20), None, cart=True)
     if ctx.thorough:
@@ -483,30 +506,28 @@ def correspondence(ctx: Ctx):
                      f"they are covered by the oracle's bound")
 
 
+def _post_flags():
+    from translate.recipes.c07 import poisson_post
+
+    return [1 if m else 0 for _, m in poisson_post()[0]]
+
+
 def _poisson_cases(c):
     conf, res, shape = c["conf"], c["res"], c["shape"]
     rows, cols = shape[-3], shape[-2]
     R = conf["accelerations"][0]
-    tol = conf.get("kwargs", {}).get("tol", 0.2)
+    kw = conf.get("kwargs", {})
+    tol = kw.get("tol", 0.2)
     Rn, Rd = _q(R)
     tn, td = _q(tol)
-    # split the probes per frame: a frame starts at each per-frame randint draw
-    frames, cur = [], None
-    pi = 0
-    for e in res["log"]:
-        if e["kind"] == "draw" and e["func"] == "mask_func":
-            cur = []
-            frames.append(cur)
-        elif e["kind"] == "kernel" and cur is not None:
-            cur.append(res["probe_counts"][pi])
-            pi += 1
-    for f, counts in enumerate(frames):
+    flags = _post_flags()
+    opts = "crop" if kw.get("crop_corner") else "nocrop"
+    for rec in res["poisson_frames"]:
         # replica of the interval bookkeeping (floats, as in the code) to know when the midpoint stalls
-        lo, hi = 0.0, float(max(rows, cols))
+        lo, hi = (float(kw["slopes"][0]), float(kw["slopes"][1])) if kw.get("slopes") else (0.0, float(max(rows, cols)))
         groups = []
-        for cnt in counts:
+        for actual in rec["tested"]:
             slope = (hi + lo) / 2
-            actual = rows * cols / cnt
             stalled = slope in (lo, hi)
             an, ad = actual.as_integer_ratio()     # the double the code compares, exactly
             groups += [an, ad, 1 if stalled else 0]
@@ -514,15 +535,15 @@ def _poisson_cases(c):
                 lo = slope
             else:
                 hi = slope
-        last_frame = f == len(frames) - 1
-        if res["err"] is None or not last_frame:
-            final = res["count"][f] if res["err"] is None else counts[-1]
-            fn, fd = (rows * cols / final).as_integer_ratio()
-            ans = "ok 0 %d %d %d" % (len(counts), fn, fd)
+        if rec["ret"] is not None:
+            # acceleration of the mask the caller gets
+            fn, fd = (rows * cols / rec["ret"]).as_integer_ratio() if rec["ret"] else (0, 1)
+            ans = "ok 0 %d %d %d" % (len(rec["tested"]), fn, fd)
         else:
-            ans = "ok 1 %d 0 1" % len(counts)
-        yield {"line": line("bisect", [Rn, Rd, tn, td], groups), "impl": (lambda a=ans: a), "nontrivial": len(counts) >= 2,
-               "bucket": f"poisson/{conf['mode']}/" + ("returned" if ans.startswith("ok 0") else "raised")}
+            ans = "ok 1 %d 0 1" % len(rec["tested"])
+        yield {"line": line("bisect", [Rn, Rd, tn, td], groups, flags), "impl": (lambda a=ans: a),
+               "nontrivial": len(rec["tested"]) >= 2,
+               "bucket": f"poisson/{conf['mode']}/{opts}/" + ("returned" if rec["ret"] is not None else "raised")}
 
 
 # -------------------------------------------------------------------------------------------------
@@ -540,7 +561,8 @@ def oracle(ctx: Ctx, deep: bool = False):
     for hg in store["hangs"]:
         yield Violation("call-does-not-return", f"generator call did not return within {hg['budget']} s", {"op": "case", **hg["case"]})
     magic_dev = 0.0
-    worst = {"equi": 0.0, "gauss": 0.0, "poisson": 0.0}
+    worst = {"equi": 0.0, "gauss": 0.0, "poisson": 0.0, "poisson_crop": 0.0, "ktradial": 0.0, "ktradial_crop": 0.0}
+    n_opts = {"crop_corner": 0, "tol": 0, "max_attempts": 0, "slopes": 0}
     for c in store["cases"]:
         conf, res, shape = c["conf"], c["res"], c["shape"]
         gen = conf["gen"]
@@ -582,12 +604,22 @@ def oracle(ctx: Ctx, deep: bool = False):
                     yield Violation(f"equispaced-budget/{gen}", f"{gen}: |count - N/R| = {dev:.3f} > 2 columns",
                                     dict(rep, frame=f, observed=cnt, expected=target, acs=L))
             elif gen == "VariableDensityPoisson":
-                tol = conf.get("kwargs", {}).get("tol", 0.2)
-                d = abs(total / cnt - R)
-                worst["poisson"] = max(worst["poisson"], d)
+                kw = conf.get("kwargs", {})
+                tol = kw.get("tol", 0.2)
+                crop = bool(kw.get("crop_corner"))
+                if f == 0:
+                    for o in n_opts:
+                        n_opts[o] += 1 if kw.get(o) else 0
+                d = abs(total / cnt - R) if cnt else float("inf")
+                wk = "poisson_crop" if crop else "poisson"
+                worst[wk] = max(worst[wk], d / tol)
                 if not d < tol:
-                    yield Violation("poisson-tolerance", f"VD-Poisson returned a mask with |R_actual - R| = {d:.3f} >= tol {tol}",
-                                    dict(rep, frame=f, observed=cnt, expected=target))
+                    yield Violation("poisson-tolerance" + ("/crop_corner" if crop else ""),
+                                    f"VD-Poisson (options {kw}) returned a mask with |R_actual - R| = {d:.3f} >= tol {tol}",
+                                    dict(rep, frame=f, observed=cnt, expected=target, realised_acceleration=total / cnt if cnt else None))
+            elif gen == "KtRadial":
+                wk = "ktradial_crop" if conf.get("kwargs", {}).get("crop_corner") else "ktradial"
+                worst[wk] = max(worst[wk], abs(total / cnt - R) if cnt else float("inf"))
             elif gen.endswith("Magic"):
                 magic_dev = max(magic_dev, dev)
     # enumeration of the equispaced family on the implementation: the property's bound itself
@@ -626,8 +658,10 @@ def oracle(ctx: Ctx, deep: bool = False):
                              "observed": mean, "expected": N / R, "sigma": sigma})
     ctx.notes.append(f"worst deviations on the implementation: equispaced sampled {worst['equi']:.3f} cols, equispaced enumerated "
                      f"{enum_worst[0]:.3f} cols over {n_enum} (N,R,cf,offset) at {enum_worst[1]}, gaussian {worst['gauss']:.3f} "
-                     f"samples, poisson |R_actual-R| {worst['poisson']:.3f}; Magic generators (reported, not judged): "
-                     f"{magic_dev:.2f} cols")
+                     f"samples, poisson |R_actual-R|/tol {worst['poisson']:.3f} (crop_corner=False) {worst['poisson_crop']:.3f} "
+                     f"(crop_corner=True), VD-Poisson cases with options {n_opts}; reported, not judged: Magic generators "
+                     f"{magic_dev:.2f} cols, KtRadial |R_actual-R| {worst['ktradial']:.2f} (crop_corner=False) "
+                     f"{worst['ktradial_crop']:.2f} (crop_corner=True)")
 
 
 def replay(rep: dict) -> bool:
